@@ -502,8 +502,10 @@ Model queries: `sig` and `delta` (exact op list, literal data compared by length
     // large inputs (rayon path, multi-MiB): implementation vs oracle only, no model line
     let big = if thorough { 40 } else { 6 };
     for i in 0..big {
-        let bs = *rng.pick(&[2048usize, 8192, 65536]);
-        let nb = rng.range(40, if thorough { 600 } else { 120 }) as usize;
+        // legal sizes, and (library level) sizes that do not divide 64 KiB: the parallel signature path (> 64 KiB) must number
+        // and hash its blocks exactly like the sequential one whatever the block size
+        let bs = if i % 3 == 2 { *rng.pick(&[1000usize, 3000, 700, 100_000]) } else { *rng.pick(&[2048usize, 8192, 65536]) };
+        let nb = if bs == 100_000 { rng.range(2, 5) as usize } else { rng.range(40, if thorough { 600 } else { 120 }).max((70_000 / bs as u64) + 2) as usize };
         let class = rng.below(5);
         let basis: Vec<u8> = (0..nb).flat_map(|_| block_of(&mut rng, bs, class.max(1))).collect();
         let mut src = basis.clone();
